@@ -28,6 +28,8 @@ def units(tier, seed):
     if tier == "quick":
         out += [{"stage": "dag", "p": 5, "codes": c} for c in split_list(_g.sparse_codes(5, 5, (1, 2)), 16)]
         out += [{"stage": "pdag", "p": 5, "codes": c} for c in split_list(_g.sparse_codes(5, 3, (1, 2, 3)), 8)]
+        # every 8th code of the complete 5-node PDAG space (dense graphs included): a fixed stride, not a sample
+        out += [{"stage": "pdag", "p": 5, "codes": list(range(lo, hi, 8))} for lo, hi in _g.chunks(0, 4 ** 10, 64)]
     else:
         out += _g.dag_units("dag", 5, 64)
         out += _g.pdag_units("pdag", 5, 256)
@@ -184,7 +186,7 @@ def describe(tier, seed):
         "technique": "exhaustive small-scope enumeration on the real code vs union graph of the brute-force equivalence class",
         "rule": "dag_to_cpdag on every labelled DAG p<=4 under 5 weight labelings and +-1 sign assignments (+ wide 10-node graphs with <=2 edges and targeted colliders, + 5-node DAGs with <=5 edges quick; all p=5, 6-node "
                 "DAGs <=5 edges and chain/collider-chain DAGs to p=12 thorough) compared entry-wise with the union graph of the "
-                "brute-force class; pdag_to_cpdag on every PDAG with acyclic directed part (p<=4 + sparse p=5 quick; p=5 + sparse p=6 "
+                "brute-force class; pdag_to_cpdag on every PDAG with acyclic directed part (p<=4 + sparse p=5 + every 8th code of the complete 5-node space quick; p=5 + sparse p=6 "
                 "thorough) incl. the ValueError when no extension exists; non-trivial: class size > 1 / >= 2 edges",
         "exhaustive": True,
         "bounds": {"p_exhaustive": 5 if tier == "thorough" else 4},
